@@ -11,6 +11,7 @@ def prop(pid, modules, contracts, lemmas=(), bounded=(), assumed=(), not_decided
 prop("C04", ["contracts.c04_codec"],
      ["EncodeRaw", "EncodeRawBool", "DecodeRaw", "DecodeRawBool", "DecodeWrongLength", "DecodeEncode", "EncodeDecode",
       "VarLen"],
+     bounded=[("bounded.codec", "strings_and_reals")],
      not_decided=["IEEE-754 values of REAL32/REAL64 and the ASCII / UTF-16-LE codecs are CPython's struct/codecs (only the table entry and the wrong-length rejection are proved)"])
 
 prop("C05", ["contracts.c04_codec", "contracts.c05_pdovar"], ["PdoGet", "PdoSet", "VarLen"],
@@ -67,3 +68,10 @@ prop("C02", ["contracts.c02_server", "contracts.c06_localnode"], ["OnRequest", "
 prop("C01", ["contracts.c01_client"], ["WsInit", "WsWriteSegment", "WsWriteExpedited", "WsClose", "RsInit", "RsRead", "ReqResp", "Upload", "Download"],
      assumed=["SdoClient.request_response as seen by the streams (env/sdoclient.py); the real function is contracted in ReqResp"],
      not_decided=["CPython io.BufferedWriter/BufferedReader/TextIOWrapper internals (assumed contract), text-mode decoding, real time"])
+
+prop("C20", ["contracts.c20_views"], ["EncodeBits", "DecodeBits", "GetBits", "BitsSetItem", "BitsAfterOtherView", "DecodeDesc", "EncodeDesc"],
+     bounded=[("bounded.phys", "phys_view")],
+     assumed=["bit ranges are enumerated (every contiguous [lo,hi) in 32 bits for get/set through Bits; a covering subset for "
+              "encode_bits/decode_bits directly); raw and field values are universally quantified",
+              "description tables are the enumerated family in contracts/c20_views.py (1..20 entries); the looked-up value is universally quantified"],
+     not_decided=["the physical view (float division and round()): floats are opaque to the engine; covered only by the bounded stand-in"])
